@@ -10,7 +10,6 @@ import (
 	"strings"
 
 	"golang.org/x/tools/go/ssa"
-	"golang.org/x/tools/go/types/typeutil"
 
 	"verif/sa/internal/core"
 	"verif/sa/internal/flow"
@@ -63,7 +62,7 @@ func headerClassifier(info *types.Info, w *types.Var, helpers map[*types.Func]bo
 				}
 				return true
 			}
-			if fn, _ := typeutil.Callee(info, call).(*types.Func); fn != nil && helpers[fn.Origin()] {
+			if fn, _ := flow.Callee(info, call).(*types.Func); fn != nil && helpers[fn.Origin()] {
 				for _, a := range call.Args {
 					if identVar(info, a) == w {
 						events++
@@ -162,11 +161,11 @@ func checkC09(p *core.Program, r *core.Report) {
 	// whole-body decoding: a streaming decoder accepts trailing bytes after a valid document
 	ast.Inspect(hu.Node, func(n ast.Node) bool {
 		if call, ok := n.(*ast.CallExpr); ok {
-			if fn, _ := typeutil.Callee(info, call).(*types.Func); fn != nil && fn.FullName() == "(*encoding/json.Decoder).Decode" {
+			if fn, _ := flow.Callee(info, call).(*types.Func); fn != nil && fn.FullName() == "(*encoding/json.Decoder).Decode" {
 				hasMore := false
 				ast.Inspect(hu.Node, func(m ast.Node) bool {
 					if c2, ok := m.(*ast.CallExpr); ok {
-						if f2, _ := typeutil.Callee(info, c2).(*types.Func); f2 != nil && (f2.FullName() == "(*encoding/json.Decoder).More" || f2.FullName() == "(*encoding/json.Decoder).Token" || f2.FullName() == "(*encoding/json.Decoder).Buffered") {
+						if f2, _ := flow.Callee(info, c2).(*types.Func); f2 != nil && (f2.FullName() == "(*encoding/json.Decoder).More" || f2.FullName() == "(*encoding/json.Decoder).Token" || f2.FullName() == "(*encoding/json.Decoder).Buffered") {
 							hasMore = true
 						}
 					}
@@ -248,7 +247,7 @@ func senderConstructor(info *types.Info, sink *ast.CallExpr, ctors map[*types.Fu
 			}
 		}
 		if c, isCall := n.(*ast.CallExpr); isCall && c != sink {
-			if fn, _ := typeutil.Callee(info, c).(*types.Func); fn != nil {
+			if fn, _ := flow.Callee(info, c).(*types.Func); fn != nil {
 				if ec, isC := ctors[fn.Origin()]; isC {
 					found, ok = ec, true
 				}
@@ -319,7 +318,7 @@ func checkMethodGate(p *core.Program, r *core.Report, hu flow.FuncUnit, g *flow.
 				}
 				return true
 			}
-			if fn, _ := typeutil.Callee(info, x).(*types.Func); fn != nil {
+			if fn, _ := flow.Callee(info, x).(*types.Func); fn != nil {
 				full := fn.FullName()
 				if full == "io.ReadAll" || full == "encoding/json.Unmarshal" || (fn.Pkg() != nil && core.InRepo(fn.Pkg().Path()) && fn.Pkg().Name() == "prover") {
 					otherCalls = append(otherCalls, full)
@@ -333,7 +332,7 @@ func checkMethodGate(p *core.Program, r *core.Report, hu flow.FuncUnit, g *flow.
 	if loc, ok := g.Locate(gate.Cond); ok {
 		ast.Inspect(hu.Node, func(n ast.Node) bool {
 			if c, ok := n.(*ast.CallExpr); ok {
-				if fn, _ := typeutil.Callee(info, c).(*types.Func); fn != nil && fn.FullName() == "io.ReadAll" {
+				if fn, _ := flow.Callee(info, c).(*types.Func); fn != nil && fn.FullName() == "io.ReadAll" {
 					if l2, ok := g.Locate(c); ok && !g.LocDominates(loc, l2) {
 						gateFirst = false
 					}
@@ -411,7 +410,7 @@ func checkSuccessPath(p *core.Program, r *core.Report, hu flow.FuncUnit, g *flow
 				if !ok {
 					continue
 				}
-				if fn, _ := typeutil.Callee(info, call).(*types.Func); fn == nil || fn.FullName() != "encoding/json.Marshal" || len(call.Args) != 1 {
+				if fn, _ := flow.Callee(info, call).(*types.Func); fn == nil || fn.FullName() != "encoding/json.Marshal" || len(call.Args) != 1 {
 					continue
 				}
 				pv := baseIdentVar(info, call.Args[0])
@@ -427,7 +426,7 @@ func checkSuccessPath(p *core.Program, r *core.Report, hu flow.FuncUnit, g *flow
 						all = false
 						continue
 					}
-					f2, _ := typeutil.Callee(info, c2).(*types.Func)
+					f2, _ := flow.Callee(info, c2).(*types.Func)
 					if f2 == nil || f2.Type().(*types.Signature).Recv() == nil || ps == nil || namedOf(f2.Type().(*types.Signature).Recv().Type()) != ps {
 						all = false
 					}
@@ -505,7 +504,7 @@ func checkModeDispatch(p *core.Program, r *core.Report, ix *funcIndex, hu flow.F
 		for _, mb := range modeBranches(ci, c.Action.Node) {
 			ast.Inspect(mb.Body, func(m ast.Node) bool {
 				if call, ok := m.(*ast.CallExpr); ok {
-					if fn, _ := typeutil.Callee(ci, call).(*types.Func); fn != nil && inRepoObj(fn) && fn.Pkg().Name() == "prover" {
+					if fn, _ := flow.Callee(ci, call).(*types.Func); fn != nil && inRepoObj(fn) && fn.Pkg().Name() == "prover" {
 						if T, _, _ := circuitTypeOf(p, fn.Name()); T != nil {
 							constCircuit[mb.Mode] = typeKey(T)
 						}
@@ -1003,7 +1002,7 @@ func checkMarshalArgs(p *core.Program, r *core.Report, ix *funcIndex) {
 			if !ok {
 				return true
 			}
-			fn, _ := typeutil.Callee(info, call).(*types.Func)
+			fn, _ := flow.Callee(info, call).(*types.Func)
 			if fn == nil || fn.FullName() != "encoding/json.Marshal" || len(call.Args) != 1 {
 				return true
 			}
@@ -1059,7 +1058,7 @@ func calleesWithWriter(info *types.Info, u flow.FuncUnit, w *types.Var) []*types
 	var out []*types.Func
 	ast.Inspect(u.Node, func(n ast.Node) bool {
 		if call, ok := n.(*ast.CallExpr); ok {
-			if fn, _ := typeutil.Callee(info, call).(*types.Func); fn != nil && inRepoObj(fn) {
+			if fn, _ := flow.Callee(info, call).(*types.Func); fn != nil && inRepoObj(fn) {
 				for _, a := range call.Args {
 					if identVar(info, a) == w && !seen[fn.Origin()] {
 						seen[fn.Origin()] = true
@@ -1082,7 +1081,7 @@ func condBranch(info *types.Info, conds map[*types.Func]*condResponder) func(con
 		if !ok {
 			return nil
 		}
-		fn, _ := typeutil.Callee(info, call).(*types.Func)
+		fn, _ := flow.Callee(info, call).(*types.Func)
 		if fn == nil {
 			return nil
 		}
@@ -1170,7 +1169,7 @@ func condCallsBranchedOn(info *types.Info, u flow.FuncUnit, conds map[*types.Fun
 	var bad []token.Pos
 	ast.Inspect(u.Node, func(n ast.Node) bool {
 		if call, ok := n.(*ast.CallExpr); ok && !okCalls[call] {
-			if fn, _ := typeutil.Callee(info, call).(*types.Func); fn != nil && conds[fn.Origin()] != nil {
+			if fn, _ := flow.Callee(info, call).(*types.Func); fn != nil && conds[fn.Origin()] != nil {
 				bad = append(bad, call.Pos())
 			}
 		}
